@@ -113,12 +113,12 @@ def params(ctx):
     }
     //@END
 """ % (name, unw, name, u, u, u, u, "true" if maxids > 1 else "false"))
-    return {"GENERATED": "\n".join(L), "LEN": 5 if ctx.tier == "quick" else 6, "GENERATED_SET": set_harness(ctx), "SETLEN": SETLEN[ctx.tier], "STAMPLEN": SETLEN[ctx.tier] + 1}
+    return {"GENERATED": "\n".join(L), "LEN": 5 if ctx.tier == "quick" else 6, "GENERATED_SET": set_harness(ctx), "SETLEN": SETLEN[ctx.tier], "STAMPLEN": 2 if ctx.tier == "quick" else 3}
 
 
-SETLEN = {"quick": 1, "thorough": 2}
+SETLEN = {"quick": 1, "thorough": 1}
 # quick: system + one user dictionary, 1-byte texts (the nested flat_map adapters are expensive: three lexicons x 2-byte texts did not finish in 1500 s)
-SETLAYERS = {"quick": ["layer_sys", "layer_u1"], "thorough": ["layer_sys", "layer_u1", "layer_u2"]}
+SETLAYERS = {"quick": ["layer_sys", "layer_u1"], "thorough": ["layer_sys", "layer_u1"]}
 
 
 def _maxe(c, order, n):
@@ -209,8 +209,8 @@ def set_harness(ctx):
         let mut lex = Lexicon::verif_from_index(&U_LAYER_U2, &T_LAYER_U2);
         let d: u8 = kani::any();
         kani::assume(d < 15);
-        lex.set_dic_id(d);""" % (SETLEN[ctx.tier] + 5))
-    L.append(head.replace("LEN", "LEN_STAMP") % (_maxe(c, ["layer_u2"], SETLEN[ctx.tier] + 1), "lex.lookup(text, off)"))
+        lex.set_dic_id(d);""" % 7)
+    L.append(head.replace("LEN", "LEN_STAMP") % (_maxe(c, ["layer_u2"], 3), "lex.lookup(text, off)"))
     L += _expected(c, ["layer_sys", "layer_u1", "layer_u2"], (2,), lambda d: "d")
     L.append(tail % 2)
     L.append("""        kani::cover!(d == 14 && from_user, "entries stamped with dictionary 14");
@@ -234,13 +234,13 @@ def harnesses(ctx):
             SETLEN[ctx.tier], len(SETLAYERS[ctx.tier]), "; ".join("%s: %s" % (n, ",".join(s if l >= 0 else "(" + s + ")" for s, l in LAYERS[n])) for n in SETLAYERS[ctx.tier])),
         kernel="C04-d all layered lexicons consulted, user dictionaries first, entries stamped with the number of their lexicon",
         assumptions=["the key sets are fixed (the builder runs concretely per set)"],
-        shape={"layers": {n: [s for s, l in LAYERS[n] if l >= 0] for n in SETLAYERS[ctx.tier]}}, required=ctx.tier == "quick", fs_array=True,
+        shape={"layers": {n: [s for s, l in LAYERS[n] if l >= 0] for n in SETLAYERS[ctx.tier]}}, required=False, tiers=("thorough",), fs_array=True,
         timeout_s=1500 if ctx.tier == "quick" else 3000, mem_gb=16 if ctx.tier == "quick" else 30,
         outside=["other stacks (4..15 dictionaries), other key sets, texts longer than %d bytes" % SETLEN[ctx.tier]], rust_mod="verif_c04_set"))
     hs.append(Harness(
         "c04_lexicon_lookup_stamp", "dic__lexicon_set",
         ["Lexicon::lookup", "Lexicon::set_dic_id", "Lexicon::word_id", "WordId::new", "Trie::common_prefix_iterator", "TrieEntryIter::next", "WordIdTable::entries", "WordIdIter::next"],
-        "every byte string of <= %d bytes x every offset x every dictionary number 0..14, one lexicon (%s)" % (SETLEN[ctx.tier] + 1, ",".join(s if l >= 0 else "(" + s + ")" for s, l in LAYERS["layer_u2"])),
+        "every byte string of <= %d bytes x every offset x every dictionary number 0..14, one lexicon (%s)" % (2 if ctx.tier == "quick" else 3, ",".join(s if l >= 0 else "(" + s + ")" for s, l in LAYERS["layer_u2"])),
         kernel="C04-d every entry of a lexicon is stamped with that lexicon's dictionary number",
         shape={"keys": [s for s, l in LAYERS["layer_u2"] if l >= 0]}, timeout_s=1500, mem_gb=16, fs_array=True, rust_mod="verif_c04_set"))
     for name, (units, table, keys) in compiled(ctx).items():
